@@ -622,7 +622,8 @@ def main():
             for c in r["confirmed"]:
                 kf = None
                 for k in known.get("findings", []):
-                    if k["property"] == prop and k["obligation"] == r["name"] and (k.get("assertion") in (None, c["desc"])):
+                    # a finding is identified by (obligation, assertion); the obligation may serve several properties
+                    if k["obligation"] == r["name"] and (k.get("assertion") in (None, c["desc"])):
                         kf = k
                 if kf: known_hits.append((kf, r, c))
                 else: violations.append((r, c))
